@@ -314,7 +314,7 @@ func init() {
 		Cases: func(seed uint64, tier string) []Case {
 			n := 250
 			if !quick(tier) {
-				n = 6000
+				n = 40000
 			}
 			var cs []Case
 			for i := 0; i < n; i++ {
